@@ -26,12 +26,41 @@ def candidates(pid, oid):
     return out
 
 
+CACHE = None      # path of a JSON file {test: [verdict, output]} for the current tree (set by bin/check)
+
+
 def run_tests(repo, tests, keep_output=True):
     """Copy the repo to a scratch dir, add the witness file as an integration test, run the
-    named tests.  Returns {test: (passed, output)}."""
+    named tests.  Returns {test: (passed, output)}.  Verdicts are cached per tree (CACHE)."""
     res = {}
     if not tests:
         return res
+    cached = {}
+    if CACHE and os.path.exists(CACHE):
+        try:
+            cached = json.load(open(CACHE))
+        except Exception:
+            cached = {}
+    todo = [t for t in tests if t not in cached]
+    if todo:
+        fresh = _run_tests(repo, todo)
+        for t, (v, o) in fresh.items():
+            if v is not None:
+                cached[t] = [v, o]
+            res[t] = (v, o)
+        if CACHE:
+            try:
+                json.dump(cached, open(CACHE, 'w'))
+            except Exception:
+                pass
+    for t in tests:
+        if t in cached:
+            res[t] = (cached[t][0], cached[t][1])
+    return res
+
+
+def _run_tests(repo, tests):
+    res = {}
     tmp = tempfile.mkdtemp(prefix='verif-wit-')
     try:
         dst = os.path.join(tmp, 'crate')
